@@ -81,6 +81,7 @@ func genC02(rng *rand.Rand, c *Case) {
 	c.Cfg["policy"] = rng.Intn(3)
 	c.Cfg["flavour"] = rng.Intn(2) // 0: 1.5+ login (agreed), 1: 1.2.3 login (name in login)
 	c.Cfg["forks"] = rng.Intn(2)
+	c.Cfg["coalesce"] = rng.Intn(2) // variant execution: handshake and login leave the client in one write
 	byteMode := c.Cfg["seg_c2s"] == int(simnet.SegByte)
 	maxPayload := 62000
 	if byteMode {
@@ -184,10 +185,15 @@ func c02Session(w *World, variant bool) *c02Outcome {
 	w.Sim.Go("c0", true, func() {
 		c.Connect()
 		applyScript(c.Conn)
+		login := c.Login
+		if variant && w.Case.Cfg["coalesce"] == 1 {
+			login = c.LoginCoalesced
+			w.Probe("handshake_and_login_coalesced")
+		}
 		if w.Case.Cfg["flavour"] == 1 {
-			out.LoggedIn = c.Login("guest", "", "tester", 7)
+			out.LoggedIn = login("guest", "", "tester", 7)
 		} else {
-			out.LoggedIn = c.Login("guest", "", "", 0)
+			out.LoggedIn = login("guest", "", "", 0)
 			if out.LoggedIn {
 				out.LoggedIn = c.Agree("tester", 7, 0, "")
 			}
